@@ -31,6 +31,8 @@ func runC09(c *core.Ctx) {
 	c.Rule("R4", "token top-up: request (target − held) tokens and append them to the held list", 5)
 	c.Rule("R6", "restart from a tokens file goes ACTIVE only with a complete token set", 1)
 	c.Rule("R7", "the wait for permission to join fails only with the caller's own context error (store faults are retried or ignored)", 1)
+	c.Rule("R8", "the tokens file is written whenever tokens are set and a path is configured, whatever the state (tokens obtained while JOINING are the ones a restart must find)", 1)
+	c.Rule("R9", "a failed token pick ends the lifecycler: autoJoin may have changed local state before its store write failed, so the loop must not carry on with it", 2)
 	c.Rule("R5", "a requested state change is remembered even when the store write fails", 1)
 	pkg := c.Prog.Pkg("ring")
 	if pkg == nil {
@@ -171,6 +173,8 @@ func runC09(c *core.Ctx) {
 	c09TopUpAs(c, "R4")
 	c09ChangeState(c, "R5")
 	c09WaitJoin(c, "R7")
+	c09SetTokens(c, "R8")
+	c09JoinFailure(c, "R9")
 }
 
 func c09Heartbeat(c *core.Ctx) { c09HeartbeatAs(c, "R2") }
@@ -473,4 +477,89 @@ func c09WaitJoin(c *core.Ctx, R string) {
 		}
 	}
 	c.Check(n > 0 && len(bad) == 0, R, "func=Lifecycler.waitBeforeJoining:returns", fn.Pos(), fmt.Sprintf("%d returns, each nil or the caller's context error; others: %v", n, bad), n)
+}
+
+// c09SetTokens (R8): setTokens persists ⇔ a tokens file is configured — no other condition.
+func c09SetTokens(c *core.Ctx, R string) {
+	pkg := c.Prog.Pkg("ring")
+	fn := an.FindFunc(pkg, "Lifecycler.setTokens")
+	if fn == nil {
+		c.Miss(R, "func=Lifecycler.setTokens", "not found")
+		return
+	}
+	c.Analysed(fn.String())
+	g := fn.Graph()
+	var stores []an.Call
+	for _, call := range fn.Calls(false) {
+		if call.Func() != nil && call.Func().Name() == "StoreToFile" {
+			stores = append(stores, call)
+		}
+	}
+	if len(stores) != 1 {
+		c.Undec(R, "func=Lifecycler.setTokens", fn.Pos(), fmt.Sprintf("expected one StoreToFile call, found %d", len(stores)))
+		return
+	}
+	t := an.Table{G: g, From: g.EntryLoc(), FreeUnknown: true, Atoms: []an.Atom{{Name: "nopath", Values: []string{"T", "F"}}},
+		Binder: &an.Binder{Fn: fn, Eq: map[string]string{"recv.cfg.TokensFilePath|\"\"": "nopath"}}, Targets: []an.Loc{g.Locate(stores[0].Expr)}, Names: []string{"StoreToFile"},
+		Want: func(r an.Row, _ int) an.Tri { return an.FromBool(r["nopath"] == "F") }}
+	res := t.Run()
+	recvOK := false
+	if sel, ok := stores[0].Expr.Fun.(*ast.SelectorExpr); ok {
+		rc := fn.Canon(sel.X)
+		recvOK = (rc == "recv.tokens" || rc == "p0") && fn.Canon(stores[0].Expr.Args[0]) == "recv.cfg.TokensFilePath"
+	}
+	c.Check(res.OK() && recvOK, R, "func=Lifecycler.setTokens", fn.Pos(), "the new tokens are written to the configured file ⇔ a path is configured: "+res.Summary(), res.Rows)
+}
+
+// c09JoinFailure (R9): in Lifecycler.loop every branch taken when autoJoin fails ends in a return.
+func c09JoinFailure(c *core.Ctx, R string) {
+	pkg := c.Prog.Pkg("ring")
+	fn := an.FindFunc(pkg, "Lifecycler.loop")
+	if fn == nil {
+		c.Miss(R, "func=Lifecycler.loop", "not found")
+		return
+	}
+	c.Analysed(fn.String())
+	var returns func(list []ast.Stmt) bool
+	returns = func(list []ast.Stmt) bool {
+		if len(list) == 0 {
+			return false
+		}
+		switch x := list[len(list)-1].(type) {
+		case *ast.ReturnStmt:
+			return true
+		case *ast.IfStmt:
+			if x.Else == nil {
+				return false
+			}
+			eb, ok := x.Else.(*ast.BlockStmt)
+			return ok && returns(x.Body.List) && returns(eb.List)
+		case *ast.BlockStmt:
+			return returns(x.List)
+		}
+		return false
+	}
+	n := 0
+	for _, call := range fn.CallsTo(true, "ring", "(*Lifecycler).autoJoin") {
+		var guard *ast.IfStmt
+		fn.InspectDeep(func(x ast.Node) bool {
+			if is, ok := x.(*ast.IfStmt); ok {
+				if as, ok := is.Init.(*ast.AssignStmt); ok && len(as.Rhs) == 1 && an.Unparen(as.Rhs[0]) == ast.Expr(call.Expr) {
+					guard = is
+				}
+			}
+			return true
+		})
+		n++
+		key := fmt.Sprintf("func=Lifecycler.loop:autoJoin#%d", n)
+		if guard == nil {
+			c.Undec(R, key, call.Expr.Pos(), "the autoJoin call is not of the form `if err := i.autoJoin(…); err != nil { … }`")
+			continue
+		}
+		be, _ := an.Unparen(guard.Cond).(*ast.BinaryExpr)
+		c.Check(be != nil && be.Op == token.NEQ && returns(guard.Body.List), R, key, call.Expr.Pos(), "every path of the error branch ends in a return (the lifecycler fails and is restarted from the ring's record)", 1)
+	}
+	if n == 0 {
+		c.Undec(R, "func=Lifecycler.loop:autoJoin", fn.Pos(), "no autoJoin call found")
+	}
 }
